@@ -176,7 +176,8 @@ Record io_env := mkIo {
   io_prompts_class : bool;     (* hasattr(ip, "prompts_class") *)
   io_pt_cli : bool;            (* hasattr(ip, "pt_cli") *)
   f30_fixed : bool;            (* code variant: fixes/F30 (NullCtx without pt_cli; HookCtx resets in a finally) *)
-  f35_fixed : bool             (* code variant: fixes/F35 (%debug <statement> auto-imports through _safe_call) *)
+  f35_fixed : bool;            (* code variant: fixes/F35 (%debug <statement> auto-imports through _safe_call) *)
+  io_stderr_closed : bool      (* sys.stderr is a closed file during the interaction *)
 }.
 Variable IO : io_env.
 
@@ -307,7 +308,11 @@ Fixpoint transform_ast (F : faults) (names : list nm) (ts : list N) (s : state) 
         | Ret s' _ => bind (transform_ast F names r s') (fun s'' _ => Ret s'' true)
         | Raise s' e =>
             if is_Exception e then
-              bind (transform_ast F names r (set_list LAst (remove_first t (ast_l s')) s')) (fun s'' _ => Ret s'' true)
+              (* [IPython] warn("AST transformer %r threw an error. It will be unregistered. %s") comes first:
+                 warnings.warn writes to sys.stderr and tolerates only OSError - on a closed sys.stderr the
+                 ValueError leaves transform_ast before the transformer is unregistered *)
+              if io_stderr_closed IO then Raise s' (EExc cls_ValueError)
+              else bind (transform_ast F names r (set_list LAst (remove_first t (ast_l s')) s')) (fun s'' _ => Ret s'' true)
             else Raise s' e
         end
       else transform_ast F names r s
